@@ -4,6 +4,7 @@ FUNCTIONS = ['base_server.BaseServer._upgrades', 'base_server.BaseServer._unauth
 FUNCTIONS += ['server.Server._handle_connect', 'async_server.AsyncServer._handle_connect']
 FUNCTIONS += ['server.Server._trigger_event', 'async_server.AsyncServer._trigger_event']
 FUNCTIONS += ['base_server.BaseServer._generate_sid_cookie']
+FUNCTIONS += ['base_server.BaseServer.__init__']
 
 LEVEL_TEXT = "_handle_connect (threaded and asyncio servers, one contract text) is verified: one id issued, only that id's table entry changes, the connect handler is the first event and runs once, a 401 answer removes the id, a 200 answer has the OPEN packet first with sid/upgrades/pingTimeout/pingInterval/maxPayload equal to the spec function open_info (milliseconds exact), the body is the payload of the packets taken, Set-Cookie exactly when a cookie name is configured; _upgrades equals the statement's upgrade condition"
 LEVEL_NOTE = '_generate_sid_cookie is verified for the plain-name configuration (exact value) and for dict configurations with string / boolean attribute values (no exception escapes, the cookie starts with name=sid); callable attribute values and the dict-cookie branch of _handle_connect are not modelled; handler contract as in C05'
